@@ -145,6 +145,10 @@ func checkNextSignalingState(cur, next SignalingState, op stateChangeOp, sdpType
 			}
 		}
 	case SignalingStateHaveLocalOffer:
+		// have-local-offer->SetLocal(rollback)->stable
+		if op == stateChangeOpSetLocal && sdpType == SDPTypeRollback && next == SignalingStateStable {
+			return next, nil
+		}
 		if op == stateChangeOpSetRemote {
 			switch sdpType { // nolint:exhaustive
 			// have-local-offer->SetRemote(answer)->stable
@@ -160,13 +164,18 @@ func checkNextSignalingState(cur, next SignalingState, op stateChangeOp, sdpType
 			}
 		}
 	case SignalingStateHaveRemotePranswer:
-		if op == stateChangeOpSetRemote && sdpType == SDPTypeAnswer {
-			// have-remote-pranswer->SetRemote(answer)->stable
+		// have-remote-pranswer->SetRemote(answer)->stable
+		// have-remote-pranswer->SetRemote(rollback)->stable
+		if op == stateChangeOpSetRemote && (sdpType == SDPTypeAnswer || sdpType == SDPTypeRollback) {
 			if next == SignalingStateStable {
 				return next, nil
 			}
 		}
 	case SignalingStateHaveRemoteOffer:
+		// have-remote-offer->SetRemote(rollback)->stable
+		if op == stateChangeOpSetRemote && sdpType == SDPTypeRollback && next == SignalingStateStable {
+			return next, nil
+		}
 		if op == stateChangeOpSetLocal {
 			switch sdpType { // nolint:exhaustive
 			// have-remote-offer->SetLocal(answer)->stable
@@ -182,8 +191,9 @@ func checkNextSignalingState(cur, next SignalingState, op stateChangeOp, sdpType
 			}
 		}
 	case SignalingStateHaveLocalPranswer:
-		if op == stateChangeOpSetLocal && sdpType == SDPTypeAnswer {
-			// have-local-pranswer->SetLocal(answer)->stable
+		// have-local-pranswer->SetLocal(answer)->stable
+		// have-local-pranswer->SetLocal(rollback)->stable
+		if op == stateChangeOpSetLocal && (sdpType == SDPTypeAnswer || sdpType == SDPTypeRollback) {
 			if next == SignalingStateStable {
 				return next, nil
 			}
